@@ -30,12 +30,17 @@ IMPLICIT = [  # (id, verb, uri, body)
     ('suffix-verb', 'post', '/v1/{name=shelves/*}:archive', '*'),
     ('additional', 'get', '/v1/{name=shelves/*}/x', None),   # + additional binding on table (must be ignored)
     ('no-var', 'get', '/v1/constant', None),
+    # every member of the http rule's pattern oneof can be the primary pattern
+    ('verb-put', 'put', '/v1/{name=shelves/*}/put', '*'),
+    ('verb-patch', 'patch', '/v1/{app.name=apps/*}/patch', '*'),
+    ('verb-delete', 'delete', '/v1/{name=shelves/*}/tables/{table}/del', None),
+    ('verb-custom', 'custom', '/v1/{name=shelves/*}/books/{table}', None),   # custom: {kind: "HEAD"}: gRPC paths only
 ]
 
 
 def rules(thorough):
     singles = [(f, t) for f in FIELDS for t in TEMPLATES]
-    out = []
+    out = [[]]      # the empty annotation: no parameters, so never a header (and no implicit fallback either)
     for f, t in singles:
         out.append([(f, t.replace('K', 'k0'))])
     for (f0, t0), (f1, t1) in itertools.product(singles, singles):
@@ -71,13 +76,15 @@ def build(rule_chunk, chunk_id, with_implicit):
         for cid, verb, uri, body in IMPLICIT:
             rpc = 'Imp' + ''.join(x.capitalize() for x in cid.replace('-', ' ').split())
             http = (verb, uri, body, [('get', '/v1/{table=tables/*}/y')]) if cid == 'additional' else (verb, uri, body)
+            if verb == 'custom':
+                http = ('custom', ('HEAD', uri))
             im.append(method(rpc, Q('RouteReq'), Q('Resp'), http=http))
             im.append(method(rpc + 'Stream', Q('RouteReq'), Q('Resp'), ss=True,
-                             http=(verb, uri.replace('/v1/', '/v1/stream/'), body)))
+                             http=(verb, uri.replace('/v1/', '/v1/stream/'), body) if verb != 'custom' else ('custom', ('HEAD', uri.replace('/v1/', '/v1/stream/')))))
             for suffix in ('', 'Stream'):
                 cells.append(dict(id=f'implicit/{cid}{"/stream" if suffix else ""}', rpc=rpc + suffix,
                                   py=names.py_method(rpc + suffix), kind='implicit', uri=uri, verb=verb, body=body,
-                                  vars=routing.path_variables(uri), stream=bool(suffix), service='Implicit'))
+                                  vars=routing.path_variables(uri), stream=bool(suffix), service='Implicit', no_rest=(verb == 'custom')))
         svcs.append(service('Implicit', im))
     f = file('acme/route/v1/route.proto', P, messages=msgs, services=svcs)
     req = request([f], 'transport=grpc+rest,autogen-snippets=false')
